@@ -88,6 +88,7 @@ theorem validJN_mono (re : Regex) (defs : Defs) (hd : Schema.propsOneOfFree defs
     | oneOf alts => simp [Schema.oneOfFree] at hs
     | allOf refs props req xreq => simp [Schema.oneOfFree] at hs
     | disc one prop refs m => simp [Schema.oneOfFree] at hs
+    | ndict value => simp [Schema.oneOfFree] at hs
 
 theorem validJN_mono_le (re : Regex) (defs : Defs) (hd : Schema.propsOneOfFree defs = true)
     (s : Schema) (v : Json) (hs : s.oneOfFree = true) (f f' : Nat) (hle : f ≤ f')
@@ -480,6 +481,7 @@ theorem sd_member (h : TableOK st) (hdo : Schema.propsOneOfFree defs = true) (g 
     | oneOf alts => simp [Schema.oneOfFree] at hof
     | allOf refs props req xreq => simp [Schema.oneOfFree] at hof
     | disc one prop refs m => simp [Schema.oneOfFree] at hof
+    | ndict value => simp [Schema.oneOfFree] at hof
 
 
 end
@@ -652,6 +654,7 @@ theorem sd_all (h : TableOK st) (hd : defsInSubset defs = true)
       | oneOf alts => simp [Schema.oneOfFree] at hof
       | allOf refs props req xreq => simp [Schema.oneOfFree] at hof
       | disc one prop refs m => simp [Schema.oneOfFree] at hof
+      | ndict value => simp [Schema.oneOfFree] at hof
 
 
 end
